@@ -259,6 +259,95 @@ def energy(run):
     run.configs.append("energy_io:%s:%s" % (mode, io))
 
 
+def e2e(run):
+  """auxiliary (concrete): the real QTools pipeline on real models - legacy Keras attributes stubbed - reports, per layer, the
+  loop-nest count of the layer Keras actually built, non-negative energies, a total that is the sum of all entries and an
+  extracted sum equal to the selected entries"""
+  from .. import legacy_keras, layers
+  from . import c18
+  legacy_keras.install()
+  Q = layers.qk()
+  keras = layers.K3()
+  from qkeras.qtools import run_qtools
+
+  def pool_merge():
+    i = keras.Input((6, 6, 2), name="in")
+    a = Q.QConv2D(2, (3, 3), strides=2, padding="same", kernel_quantizer="quantized_bits(4,0,1,alpha=1)", bias_quantizer="quantized_bits(4,0,1,alpha=1)", name="ca")(i)
+    b_ = Q.QConv2D(2, (2, 2), strides=2, dilation_rate=1, padding="same", kernel_quantizer="quantized_bits(4,0,1,alpha=1)", use_bias=False, name="cb")(i)
+    y = keras.layers.Add(name="add")([a, b_])
+    y = Q.QActivation("quantized_relu(4,1)", name="act")(y)
+    y = keras.layers.Flatten(name="f")(y)
+    y = Q.QDense(3, kernel_quantizer="quantized_bits(4,0,1,alpha=1)", bias_quantizer="quantized_bits(4,0,1,alpha=1)", name="d")(y)
+    return keras.Model(i, y)
+  models = [(n, mk, src) for n, mk, src in c18.map_models() if n != "auto_po2_dense"] + [("branch_add", pool_merge, "quantized_bits(8,0,1)")]
+  nl = 0
+  for mname, mk, src in models:
+    try:
+      model = mk()
+      qt = run_qtools.QTools(model, process="horowitz", source_quantizers=[Q.quantizers.get_quantizer(src)], is_inference=False, weights_path=None,
+                             keras_quantizer="fp32", keras_accumulator="fp32", for_reference=False)
+    except Exception as e:  # pylint: disable=broad-except
+      run.inconclusive_("QTools cannot process %s: %r" % (mname, e))
+      continue
+    lmap = qt._layer_map["layer_data_type_map"]
+    for layer, item in lmap.items():
+      cnt = item.get("operation_count") if isinstance(item, dict) else getattr(item, "operation_count", None)
+      want = true_count(layer)
+      if want is None or cnt is None:
+        continue
+      nl += 1
+      run.concrete_checks += 1
+      if int(cnt) != int(want):
+        run.violation(dict(clause="operation_count_e2e", layer=type(layer).__name__), dict(model=mname, layer=layer.name, reported=int(cnt), loop_nest=int(want)),
+                      dict(clause="e2e", model=mname, layer=layer.name))
+    for wm, am, msz, io in itertools.product(("dram", "sram", "fixed"), ("dram", "sram"), (0, 4096), (True, False)):
+      ed = qt.pe(weights_on_memory=wm, activations_on_memory=am, min_sram_size=msz, rd_wr_on_io=io)
+      run.concrete_checks += 1
+      tot = 0.0
+      bad = None
+      for lname, ent in ed.items():
+        if lname == "total_cost":
+          continue
+        for k, v in ent["energy"].items():
+          if v < 0:
+            bad = ("negative_energy", dict(layer=lname, entry=k, value=float(v)))
+          tot += float(v)
+      if bad is None and abs(float(ed["total_cost"]) - tot) > 1e-6 * max(1.0, abs(tot)) + 1.0:
+        bad = ("total_is_not_the_sum", dict(total_cost=float(ed["total_cost"]), sum_of_entries=tot))
+      cfg = {"default": ["inputs", "parameters", "op_cost"]}
+      if bad is None:
+        got = qt.extract_energy_sum(cfg, ed)
+        want_s = sum(ent["energy"][k] for ln, ent in ed.items() if ln != "total_cost" for k in cfg["default"])
+        if got != int(want_s):
+          bad = ("extracted_sum", dict(got=got, want=int(want_s)))
+      if bad is not None:
+        run.violation(dict(clause="energy_e2e", what=bad[0]), dict(model=mname, placement=[wm, am, msz, io], **bad[1]), dict(clause="e2e", model=mname))
+        break
+    run.configs.append("e2e:" + mname)
+  run.aux["e2e_layers_counted"] = nl
+
+
+def true_count(layer):
+  """multiply(-accumulate) count of one sample for the layer Keras actually built: output elements x taps"""
+  cn = type(layer).__name__
+  try:
+    out = tuple(int(d) for d in layer.output.shape[1:])
+  except Exception:  # pylint: disable=broad-except
+    return None
+  n_out = int(np.prod(out))
+  if cn in ("QDense", "Dense"):
+    return int(layer.get_weights()[0].shape[0]) * out[-1]
+  if cn in ("QConv2D", "Conv2D", "QConv1D", "Conv1D"):
+    k = layer.get_weights()[0].shape
+    return n_out * int(np.prod(k[:-1]))
+  if cn in ("QDepthwiseConv2D", "DepthwiseConv2D"):
+    k = layer.get_weights()[0].shape
+    return n_out * int(np.prod(k[:2]))
+  if cn in ("Add", "Multiply", "Subtract"):
+    return n_out
+  return None
+
+
 def _as_real(v):
   import numpy as np_
   if isinstance(v, np_.ndarray):
@@ -298,11 +387,20 @@ def run(tier, seed):
     import traceback
     traceback.print_exc()
     r.inconclusive_("energy part failed: %r" % (e,))
-  r.functions = ["qtools_util.get_operation_count", "QTools.extract_energy_sum", "QTools.extract_energy_profile", "qenergy.memory_read_energy", "qenergy.memory_write_energy"]
+  try:
+    e2e(r)
+  except Exception as e:  # pylint: disable=broad-except
+    import traceback
+    traceback.print_exc()
+    r.inconclusive_("harness error in the end-to-end part: %r" % (e,))
+  r.functions = ["QTools.__init__ / QTools.pe / qenergy.energy_estimate on real models (auxiliary, concrete)", "qtools_util.get_operation_count", "QTools.extract_energy_sum", "QTools.extract_energy_profile", "qenergy.memory_read_energy", "qenergy.memory_write_energy"]
   r.bounds = ["counts: spatial 4..12, kernel 1..5, stride 1..3, dilation 1..2, channels 1..8, same/valid - all symbolic; groups and depth multipliers > 1 not covered",
               "energy: extract_energy_sum/profile on a symbolic 3-layer energy dictionary for three cost settings; memory read/write energy for "
               "tensor size <= 2^20, bits <= 32, min_sram_size <= 2^20, all placements",
-              "NOT covered: QTools.pe() / energy_estimate() end to end and extract_model_operations (graph construction aborts under the pinned Keras 3); "
+              "end to end (auxiliary, concrete; legacy Keras attributes stubbed): the real QTools on four real models (dense stack, conv2d/depthwise/dense, "
+              "conv1d, two strided conv branches merged by Add): reported operation_count = output elements x taps of the layer Keras built; QTools.pe() "
+              "for 24 placements: entries >= 0, total_cost = sum of entries, extract_energy_sum = sum of the selected entries",
+              "NOT covered: extract_model_operations (qkeras.estimate); "
               "'entries are the documented functions of the reported types' is a restatement of the code and is not claimed"]
   r.assumptions = ["layers are stand-ins named like the real classes whose compute_output_shape returns the Keras output-shape contract "
                    "(validated against real Keras layers on corner geometries)", "np.log2 / np.ceil contracts; np.poly1d cost polynomials are the real ones"]
